@@ -20,13 +20,13 @@ type Node struct {
 	E []Node `json:"e,omitempty"`
 }
 
-func nB(b []byte) Node      { return Node{K: "b", B: hex.EncodeToString(b)} }
-func nS(s string) Node      { return nB([]byte(s)) }
-func nI(v int64) Node       { return Node{K: "i", I: big.NewInt(v).String()} }
-func nU(v uint64) Node      { return Node{K: "i", I: new(big.Int).SetUint64(v).String()} }
-func nBig(v *big.Int) Node  { return Node{K: "i", I: v.String()} }
-func nT(b bool) Node        { return Node{K: "t", T: b} }
-func nArr(e ...Node) Node   { return Node{K: "a", E: e} }
+func nB(b []byte) Node       { return Node{K: "b", B: hex.EncodeToString(b)} }
+func nS(s string) Node       { return nB([]byte(s)) }
+func nI(v int64) Node        { return Node{K: "i", I: big.NewInt(v).String()} }
+func nU(v uint64) Node       { return Node{K: "i", I: new(big.Int).SetUint64(v).String()} }
+func nBig(v *big.Int) Node   { return Node{K: "i", I: v.String()} }
+func nT(b bool) Node         { return Node{K: "t", T: b} }
+func nArr(e ...Node) Node    { return Node{K: "a", E: e} }
 func nStruct(e ...Node) Node { return Node{K: "s", E: e} }
 
 type asm struct {
